@@ -29,8 +29,10 @@ impl Rng {
 
     /// Independent stream for (seed, run index, purpose).
     pub fn derive(seed: u64, run: u64, purpose: &str) -> Rng {
-        let mut h = seed ^ 0xA076_1D64_78BD_642F;
-        h = mix(h, run);
+        // seed and run index are mixed one after the other (never XORed together: that would make a
+        // different seed merely permute the run indices)
+        let mut h = mix(0xA076_1D64_78BD_642F, seed);
+        h = mix(h.rotate_left(17) ^ 0x9E37_79B9_7F4A_7C15, run);
         for b in purpose.bytes() {
             h = mix(h, b as u64);
         }
